@@ -85,13 +85,15 @@ def _diff():
         from ..engines import diff_sim
         comps = dict(SCTP_COMPONENTS)
         comps.update(HIST_COMPONENTS)
+        comps.update(MEDIA_COMPONENTS)
         return {
             "fn": diff_sim.run, "spec": {}, "level": "exploration", "quick_s": 45, "thorough_s": 600,
             "rule": RULE_DIFF, "components": comps,
             "state_measure": "as for the underlying engine of each pair (sctp_sim / history_sim)",
             "assumptions": SCTP_ASSUME + ["the pair shares every harness decision: the second run replays the first run's recorded choice streams"],
             "probes_expected": ["identical_logs", "tsn_wrap_crossed", "rtp_seq_wrap_crossed", "differential_pairs_sctp",
-                                "differential_pairs_jb", "differential_pairs_stats", "wrap_run_rr_after_sequence_wrap"],
+                                "differential_pairs_jb", "differential_pairs_stats", "differential_pairs_media",
+                                "media_seq_wrap_crossed", "wrap_run_rr_after_sequence_wrap"],
         }
     return build
 
